@@ -724,29 +724,30 @@ example : cacheKey "www.example.com.".toList false = cacheKey "www.example.com".
 /-- a message that is not a response, has no question, or whose rcode is not NOERROR leaves cache
 and knowledge untouched. -/
 theorem dns_response_ignored_unless_noerror (w : World) (isResp hasQ rcodeOk : Bool) (qname : Str) (qtype : Nat)
-    (ttl : Option Nat) (key : Str) (h : isResp = false ∨ hasQ = false ∨ rcodeOk = false) :
+    (ttl : List Nat) (key : Str) (h : isResp = false ∨ hasQ = false ∨ rcodeOk = false) :
     dnsResp w isResp hasQ rcodeOk qname qtype ttl key = (w, false) := by
   unfold dnsResp
   rcases h with h | h | h <;> simp [h]
 
-/-- a NOERROR response is a resolution with the TTL of its first answer — and a NOERROR response
+/-- a NOERROR response is a resolution with the TTL of its shortest-lived answer — and a NOERROR response
 with an EMPTY answer section (NODATA) also is one, for `minFirefoxCacheTtl` (`w.minTtl`, 120 s in the code) (the code's
 comment "Has A/AAAA records. It is a real domain." is not what is tested). Recorded as the code has it. -/
 theorem dns_noerror_is_a_resolution (w : World) (qname : Str) (qtype : Nat) (key : Str) :
-    (∀ t : Nat, t ≤ 31536000 →
-      dnsResp w true true true qname qtype (some t) key = dnsUpdate w qname qtype ((t : Int) * 1000000000) key) ∧
+    (∀ (t : Nat) (ts : List Nat), ts.foldl min t ≤ 31536000 →
+      dnsResp w true true true qname qtype (t :: ts) key =
+        dnsUpdate w qname qtype ((ts.foldl min t : Nat) * 1000000000) key) ∧
     (w.minTtl ≤ 31536000 →
-      dnsResp w true true true qname qtype none key = dnsUpdate w qname qtype ((w.minTtl : Int) * 1000000000) key) := by
+      dnsResp w true true true qname qtype [] key = dnsUpdate w qname qtype ((w.minTtl : Int) * 1000000000) key) := by
   unfold dnsResp
-  refine ⟨fun t ht => ?_, ?_⟩
-  · have : ¬ ((31536000 : Int) < (t : Int)) := by omega
+  refine ⟨fun t ts ht => ?_, ?_⟩
+  · have : ¬ (31536000 < ts.foldl min t) := by omega
     simp [this]
   · intro hm
-    have : ¬ ((31536000 : Int) < (w.minTtl : Int)) := by omega
+    have : ¬ (31536000 < w.minTtl) := by omega
     simp [this]
 
-example : (hasKnowledge (dnsResp {} true true true "nodata.test.".toList 1 none []).1 (cacheKey "nodata.test".toList true)).2 = true := by decide
-example : (hasKnowledge (dnsResp {} true true false "nx.test.".toList 1 none []).1 (cacheKey "nx.test".toList true)).2 = false := by decide
+example : (hasKnowledge (dnsResp {} true true true "nodata.test.".toList 1 [] []).1 (cacheKey "nodata.test".toList true)).2 = true := by decide
+example : (hasKnowledge (dnsResp {} true true false "nx.test.".toList 1 [] []).1 (cacheKey "nx.test".toList true)).2 = false := by decide
 
 /-- the verified set only ever contains names for which a probe completed with an address from
 some bootstrap resolver. -/
